@@ -36,6 +36,12 @@ func isNameByte(c byte) bool {
 
 // xmlTokenize tokenizes a well-formed document; error otherwise.
 func xmlTokenize(s string) ([]xEvent, error) {
+	// production Char: no control characters other than tab, line feed and carriage return anywhere in the document
+	for k := 0; k < len(s); k++ {
+		if c := s[k]; c < 0x20 && c != '\t' && c != '\n' && c != '\r' {
+			return nil, fmt.Errorf("illegal control character 0x%02x at %d", c, k)
+		}
+	}
 	var evs []xEvent
 	i, n := 0, len(s)
 	var stack []string
